@@ -220,6 +220,23 @@ pub fn gen(tier: &str, rng: &mut Rng, emit: &mut dyn FnMut(String)) {
         emit(format!("spat {} {x}", e.len()));
         emit(format!("spat {} {x}", e.len() + 3));
     }
+    // more than u16::MAX tokens: every range form around the count and around 65535
+    for n in [65_537usize, 81_918] {
+        let p: String = (0..n).map(|_| "/k").collect();
+        let x = hex(p.as_bytes());
+        for a in [0, 1, 65_534, 65_535, 65_536, n - 1, n, n + 1] {
+            emit(format!("get {a} {x}"));
+            emit(format!("rf {a} {x}"));
+            emit(format!("rt {a} {x}"));
+            emit(format!("rti {a} {x}"));
+            emit(format!("rr 0 {a} {x}"));
+            emit(format!("rr {a} {n} {x}"));
+            emit(format!("ri 0 {a} {x}"));
+            emit(format!("rb u e{a} {x}"));
+            emit(format!("rb e{a} u {x}"));
+        }
+        emit(format!("spat {} {x}", p.len() - 2));
+    }
     // pointers with many tokens; bounds around the count and around powers of two / ten
     for n in MANY {
         for tok in ["a", "", "ab~0"] {
